@@ -93,4 +93,107 @@ def streams(ctx):
     st2 = Stream("identities_large_x", ops2, oracle=True, judge=judge,
                  model_ops=lambda ops, impl: ["# " + o for o in ops], timeout=1500,
                  classify=lambda op, r: op.split()[0])
-    return [st1, st2]
+    return [st1, st2, cli_stream(ctx)]
+
+
+def cli_stream(ctx):
+    """"every partial formula the CLI can print": the command line wrappers of src/app/main.cpp derive (y, z, k | c)
+    themselves from --alpha / --alpha-y / --alpha-z. With --status each wrapper prints the parameters it uses: they
+    must be the parameters the LIBRARY derives from the same tuning values (params_* ops); each printed term must equal
+    the defining sum for those parameters (x <= 2e7) and the printed terms must add up to pi(x) (all x)."""
+    import re
+    rng = ctx.rng
+    ops, groups = [], []
+
+    def fmt(m):
+        return "%d.%03d" % (m // 1000, m % 1000)
+
+    def parse(res):
+        """pi_cli result -> (value or None, {name: int}) ; stdout arrives with blanks/newlines canonicalised to '_'"""
+        p = res.split(":")
+        if len(p) < 2 or p[0] != "0":
+            return None, {}
+        out = p[1]
+        vars_ = {m.group(1): int(m.group(2)) for m in re.finditer(r"_([a-z_]+?)_=_(-?\d+)(?=_)", out)}
+        vals = re.findall(r"_=_(-?\d+)_Seconds", out) or re.findall(r"(?:^|_)(-?\d+)$", out)
+        return (vals[-1] if vals else None), vars_
+
+    GT = ("--Sigma", "--Phi0", "--AC", "--B", "--D")
+    DT = ("--S1", "--S2-trivial", "--S2-easy", "--S2-hard", "--P2")
+
+    def add_group(kind, x, pop, flags, terms):
+        start = len(ops)
+        ops.append(pop)
+        for term in terms:
+            ops.append("pi_cli %d %s -s -t%d %s" % (x, term, rng.choice((1, 2)), " ".join(flags)))
+        if kind == "G":
+            ops.append("alg gourdon64 %d 4" % x)
+        groups.append((kind, start, x))
+
+    n = 14 if ctx.quick else 150
+    for x in gen.structured_x(rng, 3 * 10 ** 5, 2 * 10 ** 7, n):
+        x16m = max(1, gen.iroot(6, x)) * 1000
+        ay = rng.choice((-1, 1000, 1000, rng.randint(1000, x16m), x16m, 2 * x16m))
+        az = rng.choice((-1, 1000, rng.randint(1000, 4000), 3000, x16m))
+        add_group("g", x, "params_gourdon %d %d %d" % (x, ay, az),
+                  ([] if ay < 0 else ["--alpha-y=" + fmt(ay)]) + ([] if az < 0 else ["--alpha-z=" + fmt(az)]), GT)
+        al = rng.choice((-1, 1000, rng.randint(1000, x16m), x16m, 2 * x16m))
+        add_group("d", x, "params_dr %d %d" % (x, al), [] if al < 0 else ["--alpha=" + fmt(al)], DT)
+    # larger x (beyond the defining-sum evaluator): parameters as the library derives them + terms add up to pi(x);
+    # every combination of {default, minimum, middle, maximum} alpha_y with {default, 1, middle, large} alpha_z at least
+    # once (the clamps of y and z interact: alpha_y = 1 makes the clamp y = x13 + 1 active while z = y * alpha_z)
+    for i, x in enumerate(gen.structured_x(rng, 10 ** 9, 10 ** 12, 16 if ctx.quick else 128)):
+        x16m = max(1, gen.iroot(6, x)) * 1000
+        ay = (-1, 1000, rng.randint(1001, x16m), x16m)[i % 4]
+        az = (-1, 1000, rng.randint(1001, 4000), rng.choice((2000, 2500, 3000, 5000)))[(i // 4) % 4]
+        add_group("G", x, "params_gourdon %d %d %d" % (x, ay, az),
+                  ([] if ay < 0 else ["--alpha-y=" + fmt(ay)]) + ([] if az < 0 else ["--alpha-z=" + fmt(az)]), GT)
+
+    def model_ops(ops_, impl):
+        out = ["# " + o for o in ops_]
+        for kind, st, x in groups:
+            r = impl[st].split()
+            if kind == "g" and len(r) >= 4:
+                out[st] = "ident_gourdon 64 %d %s %s %s 1" % (x, r[0], r[1], r[2])
+            elif kind == "d" and len(r) >= 3 and int(r[0]) > 0:
+                out[st] = "ident_dr 64 %d %s %s 1" % (x, r[0], r[2])
+        return out
+
+    def judge(ops_, impl, mops, model):
+        dis = []
+        for kind, st, x in groups:
+            lib = impl[st].split()
+            cli, bad_params = [], []
+            for j in range(1, 6):
+                v, vars_ = parse(impl[st + j])
+                cli.append(v if v is not None else "ERR(%s)" % impl[st + j][:60])
+                # the parameters the wrapper printed vs the library's
+                names = ("y", "z", "k") if kind in ("g", "G") else ("y", "z", "c")
+                for nm, want in zip(names, lib[:3]):
+                    if nm in vars_ and str(vars_[nm]) != want:
+                        bad_params.append("%s: %s=%d, library derives %s" % (ops_[st + j], nm, vars_[nm], want))
+            if bad_params:
+                dis.append(dict(index=st, op=ops_[st + 1 + 0] if not bad_params else bad_params[0].split(": ")[0],
+                                impl="; ".join(bad_params)[:600], model="parameters of %s: %s" % (ops_[st], " ".join(lib[:4]))))
+                continue
+            if kind == "G":
+                try:
+                    sg, p0, ac, b, d = map(int, cli)
+                    tot = ac - b + d + p0 + sg
+                except ValueError:
+                    tot = None
+                if str(tot) != impl[st + 6]:
+                    dis.append(dict(index=st, op=" ; ".join(ops_[st + 1:st + 6]), impl="terms %s sum %s" % (" ".join(cli), tot),
+                                    model="A+C - B + D + Phi0 + Sigma = pi(x) = %s" % impl[st + 6]))
+                continue
+            m = model[st].split()
+            if len(m) < 6:
+                dis.append(dict(index=st, op=ops_[st], impl=impl[st], model=model[st]))
+                continue
+            exp = m[:5]      # gourdon: sigma phi0 ac b d ; dr: s1 trivial easy hard p2
+            if cli != exp:
+                bad = [ops_[st + 1 + j] for j in range(5) if cli[j] != exp[j]]
+                dis.append(dict(index=st, op=" ; ".join(bad), impl=" ".join(cli), model=" ".join(exp), params=impl[st]))
+        return dis
+    return Stream("cli_terms", ops, oracle=True, model_ops=model_ops, judge=judge, timeout=1800,
+                  classify=lambda o, r: o.split()[2] if o.startswith("pi_cli") else o.split()[0])
